@@ -32,3 +32,19 @@ pub fn age_source(path: &std::path::Path) {
         let _ = f.set_modified(when);
     }
 }
+
+/// Rebuild a TOML table by inserting its keys in the iteration order of a `HashMap` (which differs from
+/// process to process): buildpacks assemble metadata from hash maps, and what libcnb writes must not
+/// depend on the order in which a table was filled (toml tables are sorted maps).
+#[allow(dead_code)]
+pub fn hash_order(t: toml::Table) -> toml::Table {
+    fn value(v: toml::Value) -> toml::Value {
+        match v {
+            toml::Value::Table(t) => toml::Value::Table(hash_order(t)),
+            toml::Value::Array(a) => toml::Value::Array(a.into_iter().map(value).collect()),
+            o => o,
+        }
+    }
+    let hm: std::collections::HashMap<String, toml::Value> = t.into_iter().map(|(k, v)| (k, value(v))).collect();
+    hm.into_iter().collect()
+}
